@@ -407,7 +407,7 @@ def c19(tier, seed):
 # ------------------------------------------------------------------------------------------------ concurrency
 @plan("C16")
 def c16(tier, seed):
-    nj, nc = (8, 45) if tier == "quick" else (32, 300)
+    nj, nc = (8, 48) if tier == "quick" else (32, 320)
     return dict(
         jobs=[dict(kind="conc16", n_cases=nc, lockset=True, **_seeds(seed, k)) for k in range(nj)]
         # forced pre-emption at statement boundaries of tawazi's own code (sys.monitoring LINE events, ~15x slower)
